@@ -1,0 +1,54 @@
+//go:build verif
+
+// Package verifhook provides build-tag guarded observation and steering points
+// used by the external verification harness.  With the `verif` tag off every
+// function is an empty inlineable stub (hook_off.go).
+package verifhook
+
+import (
+	"sync"
+	"time"
+)
+
+var (
+	mu       sync.RWMutex
+	tickerFn func(name string, t *time.Ticker)
+	pointFn  func(name string, args ...interface{})
+)
+
+// Enabled reports whether hooks are compiled in.
+const Enabled = true
+
+// SetTicker installs the handler called for every named ticker (nil removes it).
+func SetTicker(f func(name string, t *time.Ticker)) {
+	mu.Lock()
+	tickerFn = f
+	mu.Unlock()
+}
+
+// SetPoint installs the handler called at every named point (nil removes it).
+func SetPoint(f func(name string, args ...interface{})) {
+	mu.Lock()
+	pointFn = f
+	mu.Unlock()
+}
+
+// Ticker lets the harness take over a ticker (e.g. replace t.C).
+func Ticker(name string, t *time.Ticker) {
+	mu.RLock()
+	f := tickerFn
+	mu.RUnlock()
+	if f != nil {
+		f(name, t)
+	}
+}
+
+// Point is an observation point / gate: the handler may block.
+func Point(name string, args ...interface{}) {
+	mu.RLock()
+	f := pointFn
+	mu.RUnlock()
+	if f != nil {
+		f(name, args...)
+	}
+}
